@@ -26,19 +26,23 @@ try:
                            stdout=subprocess.PIPE, stderr=subprocess.STDOUT, text=True)
         res['suite'] = p.stdout.strip().splitlines()[-1] if p.returncode == 0 else 'FAILED: ' + p.stdout[-600:]
         print('suite on changed tree:', res['suite'])
-    env = dict(os.environ, PYTHONPATH=f'{d}/src:{d}/tests')
-    env.pop('VERIF_REPO', None)
-    text = open(demo).read().replace(orig, d)
-    os.makedirs(os.path.join(d, '_seedrun'), exist_ok=True)
-    dd = os.path.join(d, '_seedrun', os.path.basename(demo)); open(dd, 'w').write(text)   # keep the file name: demos trace themselves
-    p = subprocess.run(['/venv/bin/python', dd], cwd=d, env=env, stdout=subprocess.PIPE, stderr=subprocess.STDOUT, text=True, timeout=600)
+    def run_demo(root):
+        """The demonstration is run from <root>/_seed/<name>, the layout it was written in, with every mention of the
+        original worktree path rewritten to <root>."""
+        os.makedirs(os.path.join(root, '_seed'), exist_ok=True)
+        path = os.path.join(root, '_seed', os.path.basename(demo))
+        open(path, 'w').write(open(demo).read().replace(orig, root))
+        env = dict(os.environ, PYTHONPATH=f'{root}/src:{root}/tests')
+        env.pop('VERIF_REPO', None)
+        return subprocess.run(['/venv/bin/python', path], cwd=root, env=env, stdout=subprocess.PIPE, stderr=subprocess.STDOUT, text=True, timeout=900)
+    p = run_demo(d)
     res['demo_with_change_rc'] = p.returncode
-    print('demo with change rc=', p.returncode, '|', p.stdout.strip().splitlines()[-1:] )
-    env2 = dict(os.environ, PYTHONPATH='/repo/src:/repo/tests')
-    text2 = open(demo).read().replace(orig, '/repo')
-    d2 = tempfile.mkdtemp(prefix='deepseed0-'); dd2 = os.path.join(d2, os.path.basename(demo)); open(dd2, 'w').write(text2)
-    p = subprocess.run(['/venv/bin/python', dd2], cwd=d2, env=env2, stdout=subprocess.PIPE, stderr=subprocess.STDOUT, text=True, timeout=600)
-    shutil.rmtree(d2, ignore_errors=True)
+    print('demo with change rc=', p.returncode, '|', p.stdout.strip().splitlines()[-1:])
+    d0 = tempfile.mkdtemp(prefix='deepseed0-')
+    for sub in ('src', 'tests'):
+        shutil.copytree(os.path.join('/repo', sub), os.path.join(d0, sub))
+    p = run_demo(d0)
+    shutil.rmtree(d0, ignore_errors=True)
     res['demo_without_change_rc'] = p.returncode
     print('demo without change rc=', p.returncode, '|', p.stdout.strip().splitlines()[-1:])
     for cid in checks:
